@@ -14,14 +14,14 @@ CHECKS = {
  "C14": dict(
   engine="E3 product enumerator",
   technique="exhaustive enumeration of Annex B streams (every NAL unit size, every start-code length pattern, content classes, all type sequences) against a byte-at-a-time reference scanner and the generating unit list",
-  text="Streams of 1-3 (thorough: 4) NAL units with every size 1..20 (26), every start-code length pattern in {3,4}^n and three content classes (filler, interior zeros, interior 00 00 03), plus all type sequences of length <= 4 over the AVC and HEVC type alphabets, are pushed through ExtractNalusFromByteStream, ConvertByteStreamToNaluSample, ConvertSampleToByteStream, GetNalusFromSample, FindNaluTypes[UpToFirstVideo], ContainsNaluType, IsIDR/IsRAP, HasParameterSets, GetParameterSets[FromByteStream], ExtractNalusOfTypeFromByteStream and GetFirstAVCVideoNALUFromByteStream; every result must equal what the generating unit list implies.",
+  text="Streams of 1-3 (thorough: 4) NAL units with every size 1..20 (26), every start-code length pattern in {3,4}^n and three content classes (filler, interior zeros, interior 00 00 03), plus all type sequences of length <= 4 over the AVC (1,5,6,7,8,9,12,14,20) and HEVC (0,1,16..23,32..40) type alphabets with the RAP range 16..23 as oracle, are pushed through ExtractNalusFromByteStream, ConvertByteStreamToNaluSample, ConvertSampleToByteStream, GetNalusFromSample, FindNaluTypes[UpToFirstVideo], ContainsNaluType, IsIDR/IsRAP, HasParameterSets, GetParameterSets[FromByteStream], ExtractNalusOfTypeFromByteStream and GetFirstAVCVideoNALUFromByteStream; every result must equal what the generating unit list implies.",
   note="Well-formed streams only (units non-empty, emulation-free, last byte non-zero, NAL type 0 excluded). Sizes are bounded; the word-at-a-time scanner is exercised at every alignment modulo 8 and every tail length.",
   design="3 C14"),
  "C06": dict(
   engine="E3 product enumerator",
   technique="exhaustive product enumeration of clear fragmented files (codec x scheme x IV x key x NAL-unit layouts at the size thresholds x fragment shapes x extra-box subsets); real encrypt -> encode -> decode -> decrypt cycle; result read by an independent fragment reader and box walker and compared with the generator's ground truth",
   text="~77 000 (thorough: ~1.2 million) files: AVC/HEVC samples of 1-3 NAL units (slice NAL units with real headers from the C15 serializers in 3 variants, non-VCL units) with every unit size 1..420 (thorough 1..1200, 4095..4097, 65535..70000), all class patterns of 2 and 3 units over size subsets, 39..43 protected units per sample, clear runs around 65535/131070 bytes, AAC frame sizes 1..200 (2100), 5 IVs incl. counter wrap and 8-byte, 2 keys, 1-2 fragments, every subset of <= 3 (4) of 10 extra boxes in moof/traf. After DecodeFile/InitProtect/EncryptFragment/Encode and DecodeFile/DecryptInit/DecryptSegment/Encode: every sample byte-identical, count/size/duration/flags/cto/decode time unchanged, sample entry type restored, list of all non-protection boxes unchanged, data offsets checked through the sample bytes (ref/fragref). Five third-party encrypted test files decrypt to identical sizes and timing.",
-  note="Exhaustive over the stated product, not over all payloads. One track and one trun per traf (EncryptFragment's own limits). The cmd tools' encryptFile/decryptFile wrappers are mirrored call by call, not driven.",
+  note="Exhaustive over the stated product, not over all payloads. One track and one trun per traf (EncryptFragment's own limits). The cmd tools' run functions (mp4ff-encrypt, mp4ff-decrypt) are driven through overlay drivers on the shape/case diagonal and their outputs compared with the API path; the full product goes through the API mirror of their call sequence.",
   design="3 C06"),
  "C07": dict(
   engine="E3 product enumerator",
@@ -74,44 +74,44 @@ CHECKS = {
  "C12": dict(
   engine="E3 product enumerator from intended partitions + overlay driver + independent walker",
   technique="exhaustive enumeration of layouts generated from an intended partition x delimiter mechanism x decode flags x decoder; real decode/encode/UpdateSidx, output positions checked by an independent box walker",
-  text="Files are generated by a raw writer from an intended partition (1-3 segments x 1-2 fragments x 1-2 tracks) with each delimiter mechanism (styp, one or two top-level sidx, mfra/tfra, none), emsg placements, 0-2 segment-level sidx, zero/non-zero first presentation time and optional mdat lead-in, and decoded with all four flag combinations by both decoders: the decoded partition must equal the intended one, every moof/mdat pair must be in exactly one segment in order, segment-mode re-encode must be byte-identical per fragment; then UpdateSidx(add, nonZeroEPT both ways)+Encode through the API and the add-sidx example, and anchor, contiguity, per-reference start, end of media and durations are checked against actual box positions.",
+  text="Files are generated by a raw writer from an intended partition (1-3 segments x 1-2 fragments x 1-2 tracks) with each delimiter mechanism (styp, one or two top-level sidx, mfra/tfra, none), emsg placements, 0-2 segment-level sidx, zero/non-zero first presentation time, optional mdat lead-in and five sample-table forms (explicit trun fields, tfhd defaults, trex defaults, two truns per traf, mixed), and decoded with all four flag combinations by both decoders: the decoded partition must equal the intended one, every moof/mdat pair must be in exactly one segment in order, segment-mode re-encode must be byte-identical per fragment; then UpdateSidx(add, nonZeroEPT both ways)+Encode through the API and the add-sidx example, and anchor, contiguity, per-reference start, end of media and durations are checked against actual box positions.",
   note="Two known findings are listed in known_findings.txt (trun data_offset rewritten for mdat lead-in; second top-level sidx kept by UpdateSidx). Where two delimiter mechanisms compete the grouping is not judged. 1-2 samples per fragment.",
   design="3 C12"),
  "C19": dict(
   engine="E2 history explorer",
   technique="explicit enumeration (DFS) of AddEmptyTrack/Set...Descriptor histories on real InitSegment objects, every prefix a checked state; invariants + encode/decode/deep-equality round trip",
-  text="All histories of <= 2 tracks over the full product of 16 track kinds x 3 timescales x 6 language tags and of <= 3 (quick) / 4 (thorough) tracks over a diagonal of timescale/language are built with the public API; in every state ids, trex boxes, next-track id, handler/media-header boxes, timescale/language carriage and sample-entry contents are checked on the built tree and on the trees decoded by both decoders, together with Encode==EncodeSW, Size, re-encode identity, deep equality built vs decoded, and a fragment round trip per track id.",
+  text="All histories of <= 2 tracks over the full product of 17 track kinds (incl. stpp/wvtt/generic media types) x 3 timescales x 6 language tags and of <= 3 (quick) / 4 (thorough) tracks over a diagonal of timescale/language are built with the public API; in every state ids, trex boxes, next-track id, handler/media-header boxes, timescale/language carriage and sample-entry contents are checked on the built tree and on the trees decoded by both decoders, together with Encode==EncodeSW, Size, re-encode identity, deep equality built vs decoded, and a fragment round trip per track id.",
   note="Parameter sets are the captured AVC/HEVC sets used by the repository's own tests (two AVC SPS/PPS sets, one HEVC VPS/SPS/PPS set); deep equality ignores decoder position bookkeeping (StartPos).",
   design="3 C19"),
  "C05": dict(
   engine="E2 history explorer + independent fragment reader",
   technique="explicit enumeration (DFS over operation histories on the real builder objects, every prefix a checked state) under all configurations; differential read-back through both decoders and an independent wire-format reader",
-  text="All histories of sample additions / new-fragment operations up to the depth bound over 1 or 3 tracks, every API variant of each data class, OptimizeTrun on/off, Encode/EncodeSW and six extra-box placements are executed on real Fragment/MediaSegment objects; the encoded init+segment is decoded by DecodeFile and DecodeFileSR (GetFullSamples per track) and by the independent reader, and bytes, size, duration, flags, composition offset and decode time of every sample are compared with what was added.",
-  note="Depth <= 2 with all 120 configurations and 16 sample kinds, depth 3 with the 20 base configurations (quick: 8 covering kinds; thorough: depth 3/4, 16 kinds). At most 2 fragments per segment, 3 tracks. Encode errors are tallied (no claim), panics are violations.",
+  text="All histories of sample additions / new-fragment operations up to the depth bound over 1 or 3 tracks, every API variant of each data class, OptimizeTrun on/off, Encode/EncodeSW and seven extra-box / mdat-header configurations (including a 64-bit mdat header) are executed on real Fragment/MediaSegment objects; the encoded init+segment is decoded by DecodeFile and DecodeFileSR (GetFullSamples per track) and by the independent reader, and bytes, size, duration, flags, composition offset and decode time of every sample are compared with what was added.",
+  note="Depth <= 2 with all configurations and 20 sample kinds (16 field classes + 4 boundary-value kinds: 2^31 / 2^32-1 durations and sizes-as-declared, negative and extreme composition offsets, all flag bits), depth 3 with the base configurations (quick: covering kinds; thorough: depth 3/4, 20 kinds). At most 2 fragments per segment, 3 tracks. Encode errors are tallied (no claim), panics are violations.",
   design="3 C05"),
  "C11": dict(
   engine="E3 product enumerator + overlay drivers + independent fragment reader",
   technique="exhaustive enumeration of generated inputs x every target duration x every tool mode; tools' own entry points run in-process; outputs re-parsed by an independent reader and compared sample by sample",
-  text="Segmenter run() (single-track, -m, -lazy), Resegment(), MediaSegment.Fragmentify and combine-segs' combineInitSegments/combineMediaSegments are driven on every generated input (all sync subsets, duration tuples, chunkings, default modes) for every target duration from 1 tick to total+1; the concatenated per-track sample lists of all outputs (count, bytes, duration, flags, cto, decode time) are compared with the input, and every produced segment must start with a sync sample of the reference track.",
+  text="Segmenter run() (single-track, -m, -lazy), Resegment(), MediaSegment.Fragmentify and combine-segs' combineInitSegments/combineMediaSegments are driven on every generated input (all sync subsets, duration tuples, chunkings, default modes, 32/64-bit mdat header) for every target duration from 1 tick to total+1; the concatenated per-track sample lists of all outputs (count, bytes, duration, flags, cto, decode time) are compared with the input, and every produced segment must start with a sync sample of the reference track.",
   note="Inputs stay inside each tool's documented domain; tool errors are tallied, panics and silent differences are violations. Tracks have at most 5/6 samples, two tracks at most. Outputs are parsed by /verif/internal/ref/fragref (independent of mp4ff).",
   design="3 C11"),
  "C10": dict(
   engine="E3 product enumerator + overlay driver",
   technique="exhaustive enumeration of generated progressive files x every crop duration in ms, tool's own cropMP4 run in-process, output re-parsed by an independent box walker and table expansion",
-  text="Every generated file (all chunkings x sync subsets x duration tuples x table variants; video+audio with every chunk merge order and two audio timescales) is cropped by the tool's unexported cropMP4 (overlay-injected test driver, /repo untouched) at every millisecond from 1 to total+2; each successful output is parsed by the independent walker/expansion and compared sample by sample (bytes, duration, cto, sync, sdtp, size), mdat tiling, chunk offsets and header durations.",
+  text="Every generated file (all chunkings x sync subsets x duration tuples x table variants x 32/64-bit mdat header x tkhd duration understated; video+audio with every chunk merge order and two audio timescales) is cropped by the tool's unexported cropMP4 (overlay-injected test driver, /repo untouched) at every millisecond from 1 to total+2; each successful output is parsed by the independent walker/expansion and compared sample by sample (bytes, duration, cto, sync, sdtp, size), mdat tiling, chunk offsets and header durations.",
   note="Only successful crops are judged (errors and panics of the tool are tallied in outcomes). Tracks have at most 5/6 samples; flag parsing of the command line is not exercised. The end time is computed exactly from the input tables.",
   design="3 C10"),
  "C08": dict(
   engine="E3 product enumerator",
   technique="exhaustive enumeration of generated files x all byte ranges x all sample intervals x work-buffer sizes, differential lazy vs in-memory vs file bytes",
-  text="For every generated progressive file (all chunkings of N <= 6 (quick) / 9 (thorough) samples x mdat before/after moov x 32/64-bit mdat header x 1-2 interleaved tracks x lead-in) and small fragmented files, both decode modes are run and compared on Info, sizes and positions; every non-empty (start,size) range inside every mdat payload is read with ReadData and CopyData in both modes and compared with the file slice; every sample interval is copied with CopySampleData for 8 work-buffer sizes; a lazily decoded mdat must encode to exactly its header.",
+  text="For every generated progressive file (all chunkings of N <= 6 (quick) / 9 (thorough) samples x mdat before/after moov x 32/64-bit mdat header x 1-2 interleaved tracks x lead-in) with optional trailing boxes after mdat, and small fragmented files, both decode modes are run and compared on Info, sizes and positions; every non-empty (start,size) range inside every mdat payload is read with ReadData and CopyData in both modes and compared with the file slice; every sample interval is copied with CopySampleData for 8 work-buffer sizes; a lazily decoded mdat must encode to exactly its header; the segmenter example is run (overlay driver) in default and -lazy mode on every generated file and both outputs must be byte-identical.",
   note="Files are tiny (payload <= ~30 bytes) so that ALL ranges can be enumerated; behaviour that depends on payloads >= 4 GiB (automatic switch to largesize) is not reached. Fragmented files are produced by the library's own fragment API.",
   design="3 C08"),
  "C09": dict(
   engine="E3 product enumerator",
   technique="exhaustive enumeration of all run-length tables up to N samples, every query argument, vs naive per-sample expansion",
   text="Every run-length encoding of every table for N <= 7 (quick) / 9 (thorough) samples is serialised by an independent raw writer, decoded by the library, and every query is asked for every sample number, every interval 1<=a<=b<=N and every time 0..total+1; answers are compared with the naive per-sample expansion. Combined queries (GetSampleData, GetRangesForSampleInterval, CopySampleData) run on generated files for all chunkings of N <= 5/6 samples x 8 table variants x 1-2 tracks.",
-  note="Consistent tables only (as the statement says). Value alphabets are small ({1,2,3} durations/sizes, offsets {0,1,2,-1}); N is bounded. GetSampleNrAtTime reference follows the contract pinned by the repository's own unit test (N+1 strictly inside the last sample).",
+  note="Consistent tables only (as the statement says). Value alphabets are small plus boundaries ({1,2,3,2^31,2^32-1} durations/sizes, offsets {0,1,2,-1}); times for long tracks are the boundary set (every run edge +-1); GetTimeCode is compared in arbitrary precision; CopySampleData work buffers {0,1,2,3,4,6}; N is bounded. GetSampleNrAtTime reference follows the contract pinned by the repository's own unit test (N+1 strictly inside the last sample).",
   design="3 C09"),
  "C13": dict(
   engine="E6 product-state closure + E3",
@@ -122,7 +122,7 @@ CHECKS = {
  "C18": dict(
   engine="E3 product enumerator",
   technique="exhaustive enumeration of the complete finite domain, real encode/decode on every tuple",
-  text="Complete enumeration of the finite configuration domain (thorough: every explicit 24-bit frequency on both frequency axes; every ADTS payload length 0..8184 x 13 frequencies x 8 channel configurations; every junk length 0..187) through the real Encode/Decode; the property is settled outright for the ASC axes and the ADTS header axis, and for the junk axis over the stated junk alphabet.",
+  text="Complete enumeration of the finite configuration domain (thorough: every explicit 24-bit frequency on both frequency axes; every ADTS payload length 0..8184 x 13 frequencies x 8 channel configurations x CRC present/absent; every junk length 0..187) through the real Encode/Decode; the property is settled outright for the ASC axes and the ADTS header axis, and for the junk axis over the stated junk alphabet.",
   note="Trusted: Go runtime. The ADTS header x junk full product is not claimed (only payload lengths {0,1,8183,8184} x 3 frequencies x 3 channel configs per junk string). HE-AAC sample entries only for base frequencies with 2*f < 2^24.",
   design="3 C18"),
 }
